@@ -20,19 +20,49 @@
 (*    (pt, rnd) exactly like Paillier acts on ((1+N)^pt, rnd^N): plaintexts *)
 (*    add / scale in Z, randomisers multiply / are raised to the scalar in a *)
 (*    finite group (here the units modulo RMod);                             *)
-(*  - a proof is the record of its statement plus the truth value of that    *)
-(*    statement (perfect completeness and soundness); a verifier accepts iff *)
-(*    the proof is valid AND its statement is the one the verifier holds.    *)
+(*  - a proof made by its prover is the record of its statement plus the     *)
+(*    truth value of that statement (perfect completeness and soundness); a  *)
+(*    verifier accepts iff the proof is valid AND its statement is the one   *)
+(*    the verifier holds;                                                    *)
+(*  - a proof may also be CRAFTED (field craft: a row of the catalogue that  *)
+(*    MtACraft.tla derives from the verification equations): the network,    *)
+(*    after altering a ciphertext, or Bob, proving for a point that is not   *)
+(*    b*G, moves responses and recomputes commitments so that every equation *)
+(*    holds for the altered statement under the OLD challenge.  The          *)
+(*    Fiat-Shamir hash is an oracle: such a transcript passes iff none of    *)
+(*    the values it changed (row.changed) enters the challenge.  Unhashed    *)
+(*    names the <<system, value>> pairs left out of the hash - {} for the    *)
+(*    library; a non-empty set is a design switch that reproduces a          *)
+(*    weakened challenge (self-test: the invariants below then FAIL).        *)
 (* The plaintext arithmetic is the real one, over the integers, for a toy    *)
 (* group order Q in {3, 5}; the Paillier modulus N is symbolic: the only     *)
 (* thing assumed about it is N >= NMin = Q^2 + Q^5 (no wrap).                *)
 (*                                                                           *)
+(* Histories (History = TRUE).  Both receivers live in a process that sees   *)
+(* more than one message: after a rejected altered message the genuine one   *)
+(* is delivered again (RetryA, RetryB), and after an accepted genuine        *)
+(* message an altered one that carries the SAME proof (or a crafted one) is  *)
+(* presented (LateA, LateB; LateP: the same message 2 against another        *)
+(* point).  memA / memB are what a receiver could remember of the items it   *)
+(* has judged; Memo says what it does with that: "none" (the library: every  *)
+(* presentation is verified from scratch), "acc-item" (an accepted item is   *)
+(* recognised again: harmless), "acc-proof" / "rej-proof" (an accepted /     *)
+(* rejected PROOF is recognised whatever it is presented with: design        *)
+(* switches that reproduce a memo keyed without the ciphertext; the          *)
+(* invariants FAIL).  HistoryFree: the verdict on a presented item does not  *)
+(* depend on the history.                                                    *)
+(*                                                                           *)
 (* Constants: Q (toy prime order), WithCheck (MtA or MtAwc), Masks (the set  *)
 (* of values beta' ranges over, a subset of [0, Q^5) - all of it in the      *)
-(* exhaustive configurations).                                               *)
-EXTENDS Integers, FiniteSets, Sequences, TLC
+(* exhaustive configurations), CraftRows, History, Memo, Unhashed (above).   *)
+EXTENDS Integers, FiniteSets, Sequences, TLC, MtACraft    \* MtACraft: Rows, NoRow, Systems
 
-CONSTANTS Q, WithCheck, Masks
+CONSTANTS Q, WithCheck, Masks, CraftRows, History, Memo, Unhashed
+
+(* the crafted transcripts open to the network and to Bob: {} or the catalogue `Rows` of MtACraft.tla.  The harness  *)
+(* passes the rows printed by MtACraftMC as a literal (TLC re-derives `Rows` at every use when it is referenced from  *)
+(* an action) and lets TLC compare the literal with `Rows` once per run (ASSUME in a generated wrapper module).       *)
+CRows == CraftRows
 
 RECURSIVE IPow(_, _)
 IPow(x, e) == IF e = 0 THEN 1 ELSE x * IPow(x, e - 1)
@@ -42,8 +72,10 @@ Q5 == IPow(Q, 5)
 Q7 == IPow(Q, 7)
 
 ASSUME Q \in {3, 5}                 \* Q^7 = 78125 fits TLC's 32 bit integers
-ASSUME WithCheck \in BOOLEAN
+ASSUME WithCheck \in BOOLEAN /\ History \in BOOLEAN
 ASSUME Masks \subseteq 0..(Q5 - 1)
+ASSUME Memo \in {"none", "acc-item", "acc-proof", "rej-proof"}
+ASSUME \A u \in Unhashed : u[1] \in Systems
 
 Zq   == 0..(Q - 1)
 NMin == Q * Q + Q5                  \* assumption on Alice's modulus: N >= NMin
@@ -68,19 +100,23 @@ HomoAdd(c, d)  == [key |-> c.key, pt |-> c.pt + d.pt, rnd |-> RMul(c.rnd, d.rnd)
 CanDecrypt(c)  == c.key = "kA" /\ c.unit
 Dec(c)         == c.pt              \* = pt mod N, by the invariant NoWrap and N >= NMin
 
-(* ---- ideal proofs ---- *)
+(* ---- proofs ---- *)
+(* a crafted transcript passes iff the verifier's challenge does not depend on anything it changed *)
+CraftPasses(row) == row.changed # {} /\ \A n \in row.changed : <<row.sys, n>> \in Unhashed
+Holds(pf)        == pf.valid /\ (pf.craft = NoRow \/ CraftPasses(pf.craft))
+
 (* Alice: "cA encrypts a value in [0, Q^3] under kA", made for the verifier's ring-Pedersen parameters rpB *)
-RangePf(c, m) == [c |-> c, pk |-> "kA", rp |-> "rpB", valid |-> (0 <= m /\ m <= Q3)]
-VerifyRange(pf, c) == pf.valid /\ pf.c = c /\ pf.pk = "kA" /\ pf.rp = "rpB"
+RangePf(c, m) == [c |-> c, pk |-> "kA", rp |-> "rpB", valid |-> (0 <= m /\ m <= Q3), craft |-> NoRow]
+VerifyRange(pf, c) == Holds(pf) /\ pf.c = c /\ pf.pk = "kA" /\ pf.rp = "rpB"
 
 (* Bob: "c2 = s [*] c1 [+] Enc(m) with s in [0,Q^3], m in [0,Q^7] (and X = s*G)"; Bob builds c2 from c1 *)
 (* exactly like that, so the homomorphic part of the statement is true by construction               *)
 BobPf(c1, c2, s, m, X) ==
   [c1 |-> c1, c2 |-> c2, pk |-> "kA", rp |-> "rpA", X |-> X,
-   valid |-> (0 <= s /\ s <= Q3 /\ 0 <= m /\ m <= Q7 /\ (X # NoPoint => X = PointOf(s)))]
-VerifyBob(pf, c1, c2, X) == pf.valid /\ pf.c1 = c1 /\ pf.c2 = c2 /\ pf.pk = "kA" /\ pf.rp = "rpA" /\ pf.X = X
+   valid |-> (0 <= s /\ s <= Q3 /\ 0 <= m /\ m <= Q7 /\ (X # NoPoint => X = PointOf(s))), craft |-> NoRow]
+VerifyBob(pf, c1, c2, X) == Holds(pf) /\ pf.c1 = c1 /\ pf.c2 = c2 /\ pf.pk = "kA" /\ pf.rp = "rpA" /\ pf.X = X
 
-(* ---- what the network can do to a ciphertext in transit (the proof travels unchanged) ---- *)
+(* ---- what the network can do to a ciphertext in transit ---- *)
 Alterations(c) ==
   (   { [c EXCEPT !.rnd = r] : r \in Rands }                    \* re-randomised, same plaintext
    \cup { [c EXCEPT !.pt = c.pt + 1], [c EXCEPT !.pt = c.pt + Q] } \* plaintext shifted (+Q keeps it mod Q)
@@ -88,6 +124,25 @@ Alterations(c) ==
    \cup { [c EXCEPT !.unit = FALSE] }                           \* not a unit modulo N^2
    \cup { [c EXCEPT !.key = "kX"] }                             \* made under another key
   ) \ {c}
+(* message 2 can also be multiplied by message 1 (cB * cA: the multiplier b becomes b + 1) *)
+AlterationsB(c, c1) == (Alterations(c) \cup {HomoAdd(c, c1)}) \ {c}
+
+(* ... and to the proof that travels with it: nothing (NoRow), or one of the crafted transcripts open to a party *)
+(* that knows how the new ciphertext relates to the old one                                                     *)
+AltClasses(site, c, c2, c1) ==
+  IF ~c2.unit THEN {}                                           \* the equations need c2^-e
+  ELSE {"free"}
+       \cup (IF c2.key = c.key /\ c2.pt = c.pt /\ c2.rnd # c.rnd THEN {"rand"} ELSE {})
+       \cup (IF c2.key = c.key /\ c2.rnd = c.rnd /\ c2.pt > c.pt THEN {"gamma"} ELSE {})
+       \cup (IF site = "cB" /\ c2 = HomoAdd(c, c1) THEN {"c1pow"} ELSE {})
+SysAt(site) == IF site = "cA" THEN "alice" ELSE IF WithCheck THEN "bobwc" ELSE "bob"
+RowsCA    == {r \in CRows : r.site = "cA" /\ r.sys = "alice"}
+RowsCB    == {r \in CRows : r.site = "cB" /\ r.sys = SysAt("cB")}
+PointRows == {r \in CRows : r.site = "B"}
+RowsAt(site, c, c2, c1) ==
+  IF CRows = {} THEN {NoRow}
+  ELSE LET cls == AltClasses(site, c, c2, c1)
+       IN  {NoRow} \cup {r \in (IF site = "cA" THEN RowsCA ELSE RowsCB) : r.alt \in cls}
 
 VARIABLES
   a, b,        \* the two secrets, in [0, Q)
@@ -99,8 +154,13 @@ VARIABLES
   bob,         \* "idle" | "done" | "rejected"
   alpha, beta, \* the additive shares (-1: none)
   mask,        \* beta' (-1: none)
-  tampA, tampB \* history: was cA / cB altered in transit
-vars == <<a, b, Bpub, bobX, cA, netA, netB, alice, bob, alpha, beta, mask, tampA, tampB>>
+  tampA, tampB,\* was the message now in transit / last judged altered
+  sentB,       \* <<>> or <<message 2 as Bob sent it>> (for retransmission and later presentations)
+  memA, memB,  \* what Bob / Alice could remember of the items they have judged (History only)
+  retriedA, retriedB,   \* the genuine message was delivered again after a rejected altered one
+  lateA, lateB, lateP   \* "none" | "rejected" | "accepted": verdicts on items presented after an accepted one
+hist == <<sentB, memA, memB, retriedA, retriedB, lateA, lateB, lateP>>
+vars == <<a, b, Bpub, bobX, cA, netA, netB, alice, bob, alpha, beta, mask, tampA, tampB, hist>>
 
 Start(aa, bb, bp, bx) ==
   /\ a = aa /\ b = bb /\ Bpub = bp /\ bobX = bx
@@ -108,12 +168,41 @@ Start(aa, bb, bp, bx) ==
   /\ alice = "idle" /\ bob = "idle"
   /\ alpha = -1 /\ beta = -1 /\ mask = -1
   /\ tampA = FALSE /\ tampB = FALSE
+  /\ sentB = <<>> /\ memA = {} /\ memB = {}
+  /\ retriedA = FALSE /\ retriedB = FALSE
+  /\ lateA = "none" /\ lateB = "none" /\ lateP = "none"
 
 Init ==
   \E aa \in Zq, bb \in Zq :
     IF WithCheck
     THEN \E bp \in PubPoints : \E bx \in {bp} \cup ({PointOf(bb)} \cap PubPoints) : Start(aa, bb, bp, bx)
     ELSE Start(aa, bb, NoPoint, NoPoint)
+
+(* ---- the receivers' verdicts ---- *)
+(* what a receiver with a memo answers without verifying ("": it verifies) *)
+Remembered(mem, pf, item) ==
+  CASE Memo = "acc-proof" /\ (\E h \in mem : h.ok /\ h.pf = pf)      -> "yes"
+    [] Memo = "acc-item"  /\ (\E h \in mem : h.ok /\ h.item = item)  -> "yes"
+    [] Memo = "rej-proof" /\ (\E h \in mem : ~h.ok /\ h.pf = pf)     -> "no"
+    [] OTHER -> ""
+Judge(mem, pf, item, verified) ==
+  LET r == Remembered(mem, pf, item) IN IF r = "yes" THEN TRUE ELSE IF r = "no" THEN FALSE ELSE verified
+(* only what the memo policy looks at is kept (Memo = "none": nothing - the state space does not carry dead history) *)
+Remember(mem, pf, item, ok) ==
+  CASE ~History \/ Memo = "none"          -> mem
+    [] Memo = "acc-item"                   -> IF ok THEN mem \cup {[pf |-> pf, item |-> item, ok |-> ok]} ELSE mem
+    [] Memo = "acc-proof"                  -> IF ok THEN mem \cup {[pf |-> pf, item |-> pf, ok |-> ok]} ELSE mem
+    [] Memo = "rej-proof"                  -> IF ok THEN mem ELSE mem \cup {[pf |-> pf, item |-> pf, ok |-> ok]}
+
+(* Bob on message m: the range proof, against the ciphertext that came with it *)
+BobVerifies(m) == VerifyRange(m.pf, m.c)
+BobDecides(m)  == Judge(memA, m.pf, m, BobVerifies(m))
+(* Alice on message m, holding c1 and the point X: Bob's proof, then the decryption *)
+AliceItem(m, c1, X)     == [m |-> m, c1 |-> c1, X |-> X]
+AliceVerifies(m, c1, X) == VerifyBob(m.pf, c1, m.c, X)
+AliceDecides(m, c1, X)  == Judge(memB, m.pf, AliceItem(m, c1, X), AliceVerifies(m, c1, X)) /\ CanDecrypt(m.c)
+
+Msg1 == [c |-> cA[1], pf |-> RangePf(cA[1], a)]       \* message 1 as Alice made it
 
 (* share_protocol.go AliceInit: encrypt a, prove its range *)
 AliceInit(r) ==
@@ -122,45 +211,66 @@ AliceInit(r) ==
        /\ cA' = <<c>>
        /\ netA' = <<[c |-> c, pf |-> RangePf(c, a)]>>
   /\ alice' = "waiting"
-  /\ UNCHANGED <<a, b, Bpub, bobX, netB, bob, alpha, beta, mask, tampA, tampB>>
+  /\ UNCHANGED <<a, b, Bpub, bobX, netB, bob, alpha, beta, mask, tampA, tampB, hist>>
 
-TamperCA(c2) ==
+WithRow(pf, row) == IF row = NoRow THEN pf ELSE [pf EXCEPT !.craft = row]
+
+TamperCAEff(c2, row) ==
+  /\ netA' = <<[c |-> c2, pf |-> IF row = NoRow THEN netA[1].pf ELSE [netA[1].pf EXCEPT !.c = c2, !.craft = row]]>>
+  /\ tampA' = TRUE
+  /\ UNCHANGED <<a, b, Bpub, bobX, cA, netB, alice, bob, alpha, beta, mask, tampB, hist>>
+TamperCA(c2, row) ==
   /\ netA # <<>> /\ ~tampA
   /\ c2 \in Alterations(netA[1].c)
-  /\ netA' = <<[netA[1] EXCEPT !.c = c2]>>
-  /\ tampA' = TRUE
-  /\ UNCHANGED <<a, b, Bpub, bobX, cA, netB, alice, bob, alpha, beta, mask, tampB>>
+  /\ row \in RowsAt("cA", netA[1].c, c2, c2)
+  /\ TamperCAEff(c2, row)
 
 (* share_protocol.go BobMid / BobMidWC, proof accepted *)
 BobAccept(m, r) ==
   /\ bob = "idle" /\ netA # <<>>
   /\ m \in Masks /\ r \in Rands
-  /\ VerifyRange(netA[1].pf, netA[1].c)
+  /\ BobDecides(netA[1])
   /\ LET c1 == netA[1].c
          c2 == HomoAdd(HomoMult(b, c1), Enc("kA", m, r))
-     IN netB' = <<[c |-> c2, pf |-> BobPf(c1, c2, b, m, bobX)]>>
+         m2 == [c |-> c2, pf |-> BobPf(c1, c2, b, m, bobX)]
+     IN netB' = <<m2>> /\ sentB' = <<m2>>
   /\ mask' = m
   /\ beta' = (Q - (m % Q)) % Q
   /\ bob' = "done"
   /\ netA' = <<>>
-  /\ UNCHANGED <<a, b, Bpub, bobX, cA, alice, alpha, tampA, tampB>>
+  /\ memA' = Remember(memA, netA[1].pf, netA[1], TRUE)
+  /\ UNCHANGED <<a, b, Bpub, bobX, cA, alice, alpha, tampA, tampB, memB, retriedA, retriedB, lateA, lateB, lateP>>
 
 (* ... proof refused: Bob returns an error, nothing is sent *)
 BobReject ==
   /\ bob = "idle" /\ netA # <<>>
-  /\ ~VerifyRange(netA[1].pf, netA[1].c)
+  /\ ~BobDecides(netA[1])
   /\ bob' = "rejected"
   /\ netA' = <<>>
-  /\ UNCHANGED <<a, b, Bpub, bobX, cA, netB, alice, alpha, beta, mask, tampA, tampB>>
+  /\ memA' = Remember(memA, netA[1].pf, netA[1], FALSE)
+  /\ UNCHANGED <<a, b, Bpub, bobX, cA, netB, alice, alpha, beta, mask, tampA, tampB, sentB, memB, retriedA, retriedB, lateA, lateB, lateP>>
 
-TamperCB(c2) ==
-  /\ netB # <<>> /\ ~tampB
-  /\ c2 \in Alterations(netB[1].c)
-  /\ netB' = <<[netB[1] EXCEPT !.c = c2]>>
+(* a cheating Bob (check variant, his point is not b*G): after running the prover he recomputes commitments *)
+BobCraftEff(row) ==
+  /\ LET m2 == [netB[1] EXCEPT !.pf.craft = row, !.pf.valid = TRUE] IN netB' = <<m2>> /\ sentB' = <<m2>>
+  /\ UNCHANGED <<a, b, Bpub, bobX, cA, netA, alice, bob, alpha, beta, mask, tampA, tampB, memA, memB, retriedA, retriedB, lateA, lateB, lateP>>
+BobCraftOK == WithCheck /\ netB # <<>> /\ ~tampB /\ alice = "waiting" /\ bobX # PointOf(b) /\ netB[1].pf.craft = NoRow
+BobCraft(row) == BobCraftOK /\ row \in PointRows /\ BobCraftEff(row)
+
+AlteredMsg2(m, c2, row) == [c |-> c2, pf |-> IF row = NoRow THEN m.pf ELSE [m.pf EXCEPT !.c2 = c2, !.craft = row]]
+
+TamperCBEff(c2, row) ==
+  /\ netB' = <<AlteredMsg2(netB[1], c2, row)>>
   /\ tampB' = TRUE
-  /\ UNCHANGED <<a, b, Bpub, bobX, cA, netA, alice, bob, alpha, beta, mask, tampA>>
+  /\ UNCHANGED <<a, b, Bpub, bobX, cA, netA, alice, bob, alpha, beta, mask, tampA, hist>>
+TamperCB(c2, row) ==
+  /\ netB # <<>> /\ ~tampB
+  /\ c2 \in AlterationsB(netB[1].c, cA[1])
+  /\ row \in RowsAt("cB", netB[1].c, c2, cA[1])
+  /\ (row = NoRow \/ netB[1].pf.craft = NoRow)
+  /\ TamperCBEff(c2, row)
 
-AliceAcceptable == VerifyBob(netB[1].pf, cA[1], netB[1].c, Bpub) /\ CanDecrypt(netB[1].c)
+AliceAcceptable == AliceDecides(netB[1], cA[1], Bpub)
 
 (* share_protocol.go AliceEnd / AliceEndWC *)
 AliceAccept ==
@@ -169,28 +279,95 @@ AliceAccept ==
   /\ alpha' = Dec(netB[1].c) % Q
   /\ alice' = "done"
   /\ netB' = <<>>
-  /\ UNCHANGED <<a, b, Bpub, bobX, cA, netA, bob, beta, mask, tampA, tampB>>
+  /\ memB' = Remember(memB, netB[1].pf, AliceItem(netB[1], cA[1], Bpub), TRUE)
+  /\ UNCHANGED <<a, b, Bpub, bobX, cA, netA, bob, beta, mask, tampA, tampB, sentB, memA, retriedA, retriedB, lateA, lateB, lateP>>
 
 AliceReject ==
   /\ alice = "waiting" /\ netB # <<>>
   /\ ~AliceAcceptable
   /\ alice' = "rejected"
   /\ netB' = <<>>
-  /\ UNCHANGED <<a, b, Bpub, bobX, cA, netA, bob, alpha, beta, mask, tampA, tampB>>
+  /\ memB' = Remember(memB, netB[1].pf, AliceItem(netB[1], cA[1], Bpub), FALSE)
+  /\ UNCHANGED <<a, b, Bpub, bobX, cA, netA, bob, alpha, beta, mask, tampA, tampB, sentB, memA, retriedA, retriedB, lateA, lateB, lateP>>
+
+(* ---- histories ---- *)
+Finished == alice \in {"done", "rejected"} \/ bob = "rejected"      \* somebody rejected or both hold a share
+
+(* the altered message 1 was refused; the genuine one arrives (once more) *)
+RetryA ==
+  /\ History /\ bob = "rejected" /\ tampA /\ ~retriedA
+  /\ netA' = <<Msg1>> /\ bob' = "idle" /\ tampA' = FALSE /\ retriedA' = TRUE
+  /\ UNCHANGED <<a, b, Bpub, bobX, cA, netB, alice, alpha, beta, mask, tampB, sentB, memA, memB, retriedB, lateA, lateB, lateP>>
+
+RetryB ==
+  /\ History /\ alice = "rejected" /\ tampB /\ ~retriedB /\ sentB # <<>>
+  /\ netB' = sentB /\ alice' = "waiting" /\ tampB' = FALSE /\ retriedB' = TRUE
+  /\ UNCHANGED <<a, b, Bpub, bobX, cA, netA, bob, alpha, beta, mask, tampA, sentB, memA, memB, retriedA, lateA, lateB, lateP>>
+
+Verdict(old, ok) == IF ok \/ old = "accepted" THEN "accepted" ELSE "rejected"
+
+(* Bob has accepted message 1; the same process is handed an altered ciphertext with the same (or a crafted) proof *)
+LateMsgA(c2, row)   == [c |-> c2, pf |-> IF row = NoRow THEN Msg1.pf ELSE [Msg1.pf EXCEPT !.c = c2, !.craft = row]]
+LateCaseA(c2, row)  == c2 \in Alterations(cA[1]) /\ row \in RowsAt("cA", cA[1], c2, c2)
+LateA(c2, row) ==
+  /\ History /\ bob = "done" /\ Finished
+  /\ LateCaseA(c2, row)
+  /\ lateA' = Verdict(lateA, BobDecides(LateMsgA(c2, row)))
+  /\ UNCHANGED <<a, b, Bpub, bobX, cA, netA, netB, alice, bob, alpha, beta, mask, tampA, tampB, sentB, memA, memB, retriedA, retriedB, lateB, lateP>>
+
+(* Alice has accepted message 2; she is handed an altered cB with the same (or a crafted) proof *)
+LateCaseB(c2, row) ==
+  /\ c2 \in AlterationsB(sentB[1].c, cA[1]) /\ row \in RowsAt("cB", sentB[1].c, c2, cA[1])
+  /\ (row = NoRow \/ sentB[1].pf.craft = NoRow)
+LateB(c2, row) ==
+  /\ History /\ alice = "done" /\ sentB # <<>>
+  /\ LateCaseB(c2, row)
+  /\ lateB' = Verdict(lateB, AliceDecides(AlteredMsg2(sentB[1], c2, row), cA[1], Bpub))
+  /\ UNCHANGED <<a, b, Bpub, bobX, cA, netA, netB, alice, bob, alpha, beta, mask, tampA, tampB, sentB, memA, memB, retriedA, retriedB, lateA, lateP>>
+
+(* ... or the same message 2 to be checked against another point (row: Bob re-crafts his proof for that point) *)
+LateMsgP(bp, row)  == IF row = NoRow THEN sentB[1] ELSE [sentB[1] EXCEPT !.pf.X = bp, !.pf.craft = row, !.pf.valid = TRUE]
+LateCaseP(bp, row) == bp \in PubPoints \ {Bpub} /\ row \in {NoRow} \cup PointRows
+LateP(bp, row) ==
+  /\ History /\ WithCheck /\ alice = "done" /\ sentB # <<>>
+  /\ LateCaseP(bp, row)
+  /\ lateP' = Verdict(lateP, AliceDecides(LateMsgP(bp, row), cA[1], bp))
+  /\ UNCHANGED <<a, b, Bpub, bobX, cA, netA, netB, alice, bob, alpha, beta, mask, tampA, tampB, sentB, memA, memB, retriedA, retriedB, lateA, lateB>>
+
+(* For the model checker: ALL later presentations of a state in one step (the verdict is "accepted" if any of them is *)
+(* accepted) - the single presentations above all lead to one of the same two successors.                            *)
+LateAll ==
+  /\ History /\ Finished /\ (bob = "done" \/ alice = "done")
+  /\ (lateA = "none" /\ bob = "done") \/ (alice = "done" /\ sentB # <<>> /\ (lateB = "none" \/ (WithCheck /\ lateP = "none")))
+  /\ lateA' = IF bob = "done"
+               THEN Verdict(lateA, \E c2 \in Alterations(cA[1]) : \E row \in RowsAt("cA", cA[1], c2, c2) : BobDecides(LateMsgA(c2, row)))
+               ELSE lateA
+  /\ lateB' = IF alice = "done" /\ sentB # <<>>
+               THEN Verdict(lateB, \E c2 \in AlterationsB(sentB[1].c, cA[1]) : \E row \in RowsAt("cB", sentB[1].c, c2, cA[1]) :
+                                      LateCaseB(c2, row) /\ AliceDecides(AlteredMsg2(sentB[1], c2, row), cA[1], Bpub))
+               ELSE lateB
+  /\ lateP' = IF WithCheck /\ alice = "done" /\ sentB # <<>>
+               THEN Verdict(lateP, \E bp \in PubPoints \ {Bpub} : \E row \in {NoRow} \cup PointRows : AliceDecides(LateMsgP(bp, row), cA[1], bp))
+               ELSE lateP
+  /\ UNCHANGED <<a, b, Bpub, bobX, cA, netA, netB, alice, bob, alpha, beta, mask, tampA, tampB, sentB, memA, memB, retriedA, retriedB>>
 
 (* the exchange is over: somebody rejected or both hold a share (terminal stuttering, so that *)
 (* TLC's deadlock check reports a stall anywhere else)                                        *)
-Finished == alice \in {"done", "rejected"} \/ bob = "rejected"
 Done     == Finished /\ UNCHANGED vars
 
 Next ==
   \/ (alice = "idle" /\ \E r \in Rands : AliceInit(r))
-  \/ (netA # <<>> /\ \E c \in Alterations(netA[1].c) : TamperCA(c))
+  \/ (netA # <<>> /\ ~tampA /\ \E c \in Alterations(netA[1].c) : \E row \in RowsAt("cA", netA[1].c, c, c) : TamperCAEff(c, row))
   \/ (bob = "idle" /\ netA # <<>> /\ \E m \in Masks, r \in Rands : BobAccept(m, r))
   \/ BobReject
-  \/ (netB # <<>> /\ \E c \in Alterations(netB[1].c) : TamperCB(c))
+  \/ (BobCraftOK /\ \E row \in PointRows : BobCraftEff(row))
+  \/ (netB # <<>> /\ ~tampB /\ \E c \in AlterationsB(netB[1].c, cA[1]) : \E row \in RowsAt("cB", netB[1].c, c, cA[1]) :
+        (row = NoRow \/ netB[1].pf.craft = NoRow) /\ TamperCBEff(c, row))
   \/ AliceAccept
   \/ AliceReject
+  \/ RetryA
+  \/ RetryB
+  \/ LateAll
   \/ Done
 
 Spec == Init /\ [][Next]_vars
@@ -198,18 +375,24 @@ Spec == Init /\ [][Next]_vars
 -----------------------------------------------------------------------------
 PtMax == NMin + Q                   \* largest plaintext an altered ciphertext can carry here
 IsCt(c) == c.key \in Keys /\ 0 <= c.pt /\ c.pt <= PtMax /\ c.rnd \in Rands /\ c.unit \in BOOLEAN
+Verdicts == {"none", "rejected", "accepted"}
 
 TypeOK ==
   /\ a \in Zq /\ b \in Zq
   /\ Bpub \in PubPoints \cup {NoPoint} /\ bobX \in PubPoints \cup {NoPoint}
-  /\ Len(cA) <= 1 /\ Len(netA) <= 1 /\ Len(netB) <= 1
+  /\ Len(cA) <= 1 /\ Len(netA) <= 1 /\ Len(netB) <= 1 /\ Len(sentB) <= 1
   /\ \A i \in 1..Len(cA) : IsCt(cA[i])
-  /\ \A i \in 1..Len(netA) : IsCt(netA[i].c)
-  /\ \A i \in 1..Len(netB) : IsCt(netB[i].c)
+  /\ \A i \in 1..Len(netA) : IsCt(netA[i].c) /\ netA[i].pf.craft \in CRows \cup {NoRow}
+  /\ \A i \in 1..Len(netB) : IsCt(netB[i].c) /\ netB[i].pf.craft \in CRows \cup {NoRow}
+  /\ \A i \in 1..Len(sentB) : IsCt(sentB[i].c)
   /\ alice \in {"idle", "waiting", "done", "rejected"}
   /\ bob \in {"idle", "done", "rejected"}
   /\ (alpha = -1 \/ alpha \in Zq) /\ (beta = -1 \/ beta \in Zq) /\ (mask = -1 \/ mask \in Masks)
-  /\ tampA \in BOOLEAN /\ tampB \in BOOLEAN
+  /\ tampA \in BOOLEAN /\ tampB \in BOOLEAN /\ retriedA \in BOOLEAN /\ retriedB \in BOOLEAN
+  /\ lateA \in Verdicts /\ lateB \in Verdicts /\ lateP \in Verdicts
+  /\ (~History => memA = {} /\ memB = {} /\ ~retriedA /\ ~retriedB /\ lateA = "none" /\ lateB = "none" /\ lateP = "none")
+  /\ (\A h \in memA : h.ok \in BOOLEAN) /\ (\A h \in memB : h.ok \in BOOLEAN)
+  /\ (Memo = "none" => memA = {} /\ memB = {})
 
 BobHonestPoint == WithCheck => (Bpub = PointOf(b) /\ bobX = Bpub)
 
@@ -218,6 +401,7 @@ SharesAddUp ==
   (alice = "done" /\ bob = "done") => (alpha + beta) % Q = (a * b) % Q
 
 (* every embedded proof is accepted in an unaltered exchange with an honest public point *)
+(* (also when the genuine message is delivered after an altered one was refused)         *)
 HonestCompletes ==
   /\ (~tampA /\ bob # "idle") => bob = "done"
   /\ (~tampA /\ ~tampB /\ BobHonestPoint /\ alice \in {"done", "rejected"}) => alice = "done"
@@ -231,6 +415,15 @@ NoWrap ==
 TamperRejected ==
   /\ tampA => (bob # "done" /\ beta = -1 /\ netB = <<>> /\ alice # "done")
   /\ tampB => (alice # "done" /\ alpha = -1)
+
+(* ... also when it is presented to a receiver that has accepted the genuine item before; and Alice, *)
+(* having accepted for b*G, refuses the same message for any other point                             *)
+LateRejected == lateA # "accepted" /\ lateB # "accepted" /\ lateP # "accepted"
+
+(* the verdict on the item now presented does not depend on what the receiver has seen before *)
+HistoryFree ==
+  /\ (netA # <<>> /\ bob = "idle") => (BobDecides(netA[1]) = BobVerifies(netA[1]))
+  /\ (netB # <<>> /\ alice = "waiting") => (AliceDecides(netB[1], cA[1], Bpub) = (AliceVerifies(netB[1], cA[1], Bpub) /\ CanDecrypt(netB[1].c)))
 
 (* C13, check variant: Alice only ends with a share if the point she holds for Bob is b*G *)
 CheckRejects ==
